@@ -51,9 +51,9 @@ CHECKS['C05'] = dict(
    technique='Lean 4 proof (invariant over operation histories) + differential correspondence on operation histories',
    design='C05')
 CHECKS['C07'] = dict(
-   text='Model/Serial.lean models _to_dict/_from_dict over a typed document with int/str keys (jsonRT / yamlRT file layers). The correspondence builds models by random API histories, saves them with the real code to .json/.yml/.yaml, loads the real file, compares every preserved attribute, re-saved content, the same file with permuted asset order and type-only shorthand, and compares saved document and loaded state with the Lean model.',
-   note='file layers (json, PyYAML) enter as assumed functions validated through real files; round-trip theorems over the document model are in progress (level_note updated when proved); known finding KF-C07-1 (duplicate attacker ids) is replayed on every run',
-   technique='Lean 4 model + differential correspondence through real files (round-trip theorems pending)',
+   text='Theorems (Props/C07.lean): int(str(n)) = n for dictionary keys (key_roundtrip); loading the saved document (YAML and JSON layer) of any state reachable through the API with distinct attacker ids succeeds and gives the same assets (id, name, type, effective defense values, extras), associations and attackers, and saving again gives the identical document (load_save_reachable, load_save_yaml/json_partial, save_idempotent_partial); permuting the asset entries of a file gives the same model up to asset order (load_order_independent, incl. id 0 anywhere); the type-only shorthand loads as the asset it abbreviates. Model/Serial.lean models _to_dict/_from_dict over a typed document with int/str keys. The correspondence builds models by random API histories, saves them with the real code to .json/.yml/.yaml, loads the real file, compares every preserved attribute, re-saved content, the same file with permuted asset order and type-only shorthand, and compares saved document and loaded state with the Lean model.',
+   note='file layers (json, PyYAML) enter as assumed functions jsonRT / yamlRT validated through real files; the three round-trip theorems carry hypotheses the proof forced (non-empty attacker names, distinct defense keys per asset, links resolve to their class: each shown necessary by a proved counterexample and shown to hold after every API history: load_save_reachable); model name / metadata are not part of the state model; known finding KF-C07-1 (duplicate attacker ids collapse, proved in Lean and replayed on the real code on every run)',
+   technique='Lean 4 proof (round trip over a typed document model, order independence, shorthand) + differential correspondence through real files',
    design='C07')
 CHECKS['C06'] = dict(
    text='Theorems (Props/C06.lean): the class table of the model is exactly the declarations (defenses = own and inherited with default 1 iff Enabled; one association class per declaration with its fields, declared types and maxima; distinct class names for distinct (name, left, right) under the stated naming hypothesis, with proved counterexamples otherwise); Valid (defenses in range, members subtype-correct, counts within maxItems, no asset twice in a field, no link twice) is preserved by every operation over every history; each of the invalid constructions is rejected, and an association passing all checks is accepted. Tied to LanguageClassesFactory / pjs / _validate_association by class inventories and histories of valid and invalid constructions on the real library.',
@@ -66,7 +66,7 @@ CHECKS['C15'] = dict(
    technique='Lean 4 model + differential correspondence (theorems pending)',
    design='C15')
 NOT_YET = {}
-PENDING = {'C07', 'C15', 'C10', 'C14', 'C04', 'C17'}   # harness exists, theorems in progress: not claimed until they check
+PENDING = {'C15', 'C10', 'C14', 'C04', 'C17'}   # harness exists, theorems in progress: not claimed until they check
 
 def main():
     for k in PENDING: CHECKS.pop(k, None)
